@@ -141,7 +141,7 @@ Definition osum (l : list (option R)) : option R := fold_right oadd (Some (zero 
 (** what einsum / multi_mv in the Real semiring make of a nan *)
 Definition nan_to_zero (x : option R) : R := match x with Some v => v | None => zero o end.
 
-Definition J_log_contribs (G : grammar) (comp : list nat) (e : nat -> option (list nat -> R)) (with_inputs : bool)
+Definition J_log_old_contribs (G : grammar) (comp : list nat) (e : nat -> option (list nat -> R)) (with_inputs : bool)
   : list (nat * nat * (list nat -> option R)) :=
   flat_map (fun n =>
     let taus := flat_map (fun r => match spe o (node_sizes G r) e (r_edges r) (r_ext r) with
@@ -163,8 +163,32 @@ Definition J_log_contribs (G : grammar) (comp : list nat) (e : nat -> option (li
              end) (splits (r_edges r))) taus) comp.
 
 (** the block with key (n, l) after all [add_single]s: one nan poisons the cell *)
-Definition J_log_val (J : list (nat * nat * (list nat -> option R))) (n l : nat) (idx : list nat) : option R :=
+Definition J_log_old_val (J : list (nat * nat * (list nat -> option R))) (n l : nat) (idx : list nat) : option R :=
   osum (map (fun c => snd c idx) (filter (fun c => Nat.eqb (fst (fst c)) n && Nat.eqb (snd (fst c)) l) J)).
+
+(** the code as it is now (b84d904): [nan_to_num_(nan=0, posinf=inf)] is applied to every
+    (rule, edge) tensor after [exp], BEFORE it is added into its block: a rule whose sum-product is
+    zero (0/0) contributes nothing.  The blocks are then ordinary sums ([J_val]). *)
+Definition J_log_contribs (G : grammar) (comp : list nat) (e : nat -> option (list nat -> R)) (with_inputs : bool)
+  : list (nat * nat * (list nat -> R)) :=
+  map (fun c => (fst c, fun idx => nan_to_zero (snd c idx))) (J_log_old_contribs G comp e with_inputs).
+
+(** the backward pass in the Log semiring for components evaluated in one step, and reverse
+    accumulation over a non-recursive grammar: as [backward_nonrec] with [J_log] in place of [J]
+    (values read through exp, cotangents are derivatives w.r.t. the log-values) *)
+Definition onestep_J_log (G : grammar) (all : tmt (R:=R)) (X : nat) : list (nat * nat * (list nat -> R)) :=
+  let inputs := comp_inputs G [X] (mt_of o all) in
+  let x := match tmt_get all X with Some tb => [(X, tab_get o tb)] | None => [] end in
+  Jin_of [X] (J_log_contribs G [X] (lookup2 x inputs) true).
+Definition back_step_log (G : grammar) (all : tmt (R:=R)) (gbar : tmt (R:=R)) (X : nat) : tmt (R:=R) :=
+  let J := onestep_J_log G all X in
+  let g := env_of o gbar in
+  map (fun l => (l, tabulate (lshape G l) (fun yi => add o (g l yi) (J_vjp G J g l yi))))
+      (seq 0 (length (g_labels G))).
+Definition backward_nonrec_log (G : grammar) (w : tmt (R:=R)) (order : list (list nat)) (cot : list R) : tmt (R:=R) :=
+  let all := sum_products_nonrec o G w order in
+  let gbar0 := [(g_start G, combine (all_assts (lshape G (g_start G))) cot)] in
+  fold_left (back_step_log G all) (rev (concat order)) gbar0.
 
 (** * certified enclosures of the least fixed point that work at any ordered carrier *)
 (** [rd x <= x <= ru x]; [leb] decides the order; [close lo v] = the enclosure is tight *)
@@ -313,7 +337,7 @@ Definition neg_part (c : Q) : ereal := Fin (nn_of_Q (- c)).
     verdicts: 0 ok; 1 an observed gradient entry misses the certified interval of the true
     derivative; 2 ill-formed input; 3 scc out of fuel; 4 an observation is missing or has the
     wrong size; 20 the code-shaped backward model differs from the dual-number derivative
-    (non-recursive Real cases; framework bug); 30 no certified tight enclosure (discarded);
+    (non-recursive cases; framework bug); 30 no certified tight enclosure (discarded);
     31 log Z = -inf at some start cell (derivative undefined; discarded) *)
 Definition verdict_of (codes : list nat) : nat :=
   if existsb (Nat.eqb 1) codes then 1
@@ -374,9 +398,12 @@ Definition grad_check_real (x : grammar_w * list (nat * list (option Q)) * (bool
     let nonrec := nonrecursive_order G order in
     (* the code-shaped backward pass, once per case (Real, non-recursive only) *)
     let w0 := weights_tmt ereal_of G ws in
-    let bp := if nonrec && negb is_log
-              then Some (backward_nonrec ereal_ops G w0 order (map pos_part cot),
-                         backward_nonrec ereal_ops G w0 order (map neg_part cot))
+    let bp := if nonrec
+              then if is_log
+                   then Some (backward_nonrec_log ereal_ops ediv G w0 order (map pos_part cot),
+                              backward_nonrec_log ereal_ops ediv G w0 order (map neg_part cot))
+                   else Some (backward_nonrec ereal_ops G w0 order (map pos_part cot),
+                              backward_nonrec ereal_ops G w0 order (map neg_part cot))
               else None in
     verdict_of (flat_map (fun p =>
       let l := fst p in
